@@ -12,10 +12,16 @@ import (
 
 func g(kind string) { sched.Gate("", kind, nil) }
 
-func AddInt32(addr *int32, delta int32) int32     { g("atomic.add"); return atomic.AddInt32(addr, delta) }
-func AddInt64(addr *int64, delta int64) int64     { g("atomic.add"); return atomic.AddInt64(addr, delta) }
-func AddUint32(addr *uint32, delta uint32) uint32 { g("atomic.add"); return atomic.AddUint32(addr, delta) }
-func AddUint64(addr *uint64, delta uint64) uint64 { g("atomic.add"); return atomic.AddUint64(addr, delta) }
+func AddInt32(addr *int32, delta int32) int32 { g("atomic.add"); return atomic.AddInt32(addr, delta) }
+func AddInt64(addr *int64, delta int64) int64 { g("atomic.add"); return atomic.AddInt64(addr, delta) }
+func AddUint32(addr *uint32, delta uint32) uint32 {
+	g("atomic.add")
+	return atomic.AddUint32(addr, delta)
+}
+func AddUint64(addr *uint64, delta uint64) uint64 {
+	g("atomic.add")
+	return atomic.AddUint64(addr, delta)
+}
 func AddUintptr(addr *uintptr, delta uintptr) uintptr {
 	g("atomic.add")
 	return atomic.AddUintptr(addr, delta)
@@ -41,8 +47,8 @@ func StorePointer(addr *unsafe.Pointer, v unsafe.Pointer) {
 	atomic.StorePointer(addr, v)
 }
 
-func SwapInt32(addr *int32, v int32) int32    { g("atomic.swap"); return atomic.SwapInt32(addr, v) }
-func SwapInt64(addr *int64, v int64) int64    { g("atomic.swap"); return atomic.SwapInt64(addr, v) }
+func SwapInt32(addr *int32, v int32) int32     { g("atomic.swap"); return atomic.SwapInt32(addr, v) }
+func SwapInt64(addr *int64, v int64) int64     { g("atomic.swap"); return atomic.SwapInt64(addr, v) }
 func SwapUint32(addr *uint32, v uint32) uint32 { g("atomic.swap"); return atomic.SwapUint32(addr, v) }
 func SwapUint64(addr *uint64, v uint64) uint64 { g("atomic.swap"); return atomic.SwapUint64(addr, v) }
 
